@@ -4,7 +4,19 @@ from props_common import TRUSTED_COMMON
 PROP = {
     "lean_targets": ["MultiProofs.C10"],
     "lean_module": "MultiProofs.C10",
-    "theorems": ["Multi.C10.stub"],
+    "theorems": [
+        "Multi.C10.dealloc_by_equal_alloc_partial",
+        "Multi.C10.dealloc_by_equal_alloc_history",
+        "Multi.C10.alloc_safe_always_equal",
+        "Multi.C10.propagation_follows_traits",
+        "Multi.C10.ext_ctor_uses_given",
+        "Multi.C10.finding_F9_move_assign_adopts_foreign_block",
+        "Multi.C10.finding_F9_wrong_deallocate",
+        "Multi.C10.finding_F9_ext_move_ctor_adopts_foreign_block",
+        "Multi.C10.finding_F9c_copy_assign_replaces_allocator_under_block",
+        "Multi.C10.finding_F9d_view_assign_uses_default_allocator",
+        "Multi.Ledger.run_spec",
+    ],
     "harnesses": [lc.ledger_harness("ledger", ["alloc"], 32000, 320000, ["alloc20"])],
     "hooks": ["oracle"],
     "trusted_base": TRUSTED_COMMON + lc.TRUSTED_LEDGER,
